@@ -420,6 +420,18 @@ def _random_chunk(args):
     return [(base + i, sh, run_shape(sh, variant=base + i)) for i, sh in enumerate(shapes)]
 
 
+def run_trace(module, path, expect):
+    """one trace-validation run; a run that TLC did not complete (resource trouble on a shared machine) is retried once"""
+    tr = None
+    for attempt in (1, 2):
+        tr = tlc.run(module, module, workers=WORKERS, env={"TRACE_FILE": str(path)}, timeout=2400, heap=HEAP)
+        if not tr.errors and tr.distinct == expect:
+            return tr
+    i = tr.stdout.find("Error")
+    machinery_failure(PID, f"trace validation failed twice (distinct={tr.distinct}, expected {expect}, errors={tr.errors[:5]}):\n"
+                      + (tr.stdout[max(0, i - 200):i + 2500] if i >= 0 else tr.stdout[-3000:]))
+
+
 # =====================================================================================  main
 def parse_glines(printed):
     """G lines of MC_Links: the graph (edge string, or "m<mask>" over the pair table of the P line), c|d, 4 outcomes"""
@@ -587,10 +599,8 @@ def main(argv):
             f = tmp / f"trace{c}.json"
             f.write_text(json.dumps({"graphs": [{"es": g["es"], "raised": g["raised"], "order": g["order"]} for g in gpart], "insts": [{"shape": sh, "add": ob["add"], "ran": ob["ran"], "failed": ob["failed"], "log": ob["log"], "final": ob["final"]}
                                                                 for sh, ob, _o in part]}))
-            tr = tlc.run("Trace_Links", "Trace_Links", workers=WORKERS, env={"TRACE_FILE": str(f)}, timeout=2400, heap=HEAP)
+            tr = run_trace("Trace_Links", f, len(part) + len(gpart))
             rep.add_tlc(f"Trace_Links[{c}]", tr)
-            if tr.errors or tr.distinct != len(part) + len(gpart):
-                machinery_failure(PID, f"trace validation failed (distinct={tr.distinct}, expected {len(part) + len(gpart)}):\n" + tr.stdout[-3000:])
             for p in tr.printed:
                 if isinstance(p, list) and p and p[0] == "R":
                     rejects.append((p[1], p[2] + (c * CH if p[1] == "inst" else 0), p[3]))
